@@ -370,7 +370,9 @@ func runC04Handshake(c *Ctx) error {
 	// shapes other than name=value: bare tokens, empty values, repeated '=', stray separators, repeats, unknown names
 	shapes := []string{"permessage-deflate; %s", "permessage-deflate; %s=", "permessage-deflate; %s=12=13", "permessage-deflate;%s;", "permessage-deflate ; %s ; ",
 		"permessage-deflate; %s; %s=10", "permessage-deflate; %s=10; %s", "permessage-deflate; =; %s", "permessage-deflate; %s=\"10\"", "%s", "%s=10", ";", "permessage-deflate;;;",
-		"permessage-deflate; x-unknown; %s=9", "permessage-deflate, permessage-deflate; %s=9", "PERMESSAGE-DEFLATE; %s=9"}
+		"permessage-deflate; x-unknown; %s=9", "permessage-deflate, permessage-deflate; %s=9", "PERMESSAGE-DEFLATE; %s=9",
+		// quoted-string values (RFC 7692 allows them) in degenerate forms: a lone quote, an empty pair, an unterminated one
+		"permessage-deflate; %s=\"", "permessage-deflate; %s=\"\"", "permessage-deflate; %s=\"1", "permessage-deflate; x-unknown=\"; %s", "permessage-deflate; %s='"}
 	names := append([]string{"client_no_context_takeover", "server_no_context_takeover"}, params...)
 	var exts []string
 	for _, sh := range shapes {
